@@ -19,6 +19,8 @@ impl Rng {
     pub fn pick<'a, T>(&mut self, v: &'a [T]) -> &'a T { &v[self.below(v.len() as u64) as usize] }
 }
 
+pub fn shard() -> usize { std::env::var("VERIF_SHARD").ok().and_then(|s| s.parse::<usize>().ok()).unwrap_or(0) }
+pub fn nshards() -> usize { std::env::var("VERIF_NSHARDS").ok().and_then(|s| s.parse::<usize>().ok()).unwrap_or(1).max(1) }
 pub fn seed_from_env() -> u64 {
     std::env::var("VERIF_SEED").ok().and_then(|s| s.parse::<u64>().ok()).unwrap_or(1)
 }
@@ -106,6 +108,38 @@ pub const ROOTS: &[&str] = &[
     "4k3/8/8/8/8/8/8/R3K1N1 w Q - 0 1", "rnbqkb1r/pp1p1ppp/2p5/4P3/2B5/8/PPP1NnPP/RNBQK2R w KQkq - 0 6",
     "n1n5/PPPk4/8/8/8/8/4Kppp/5N1N b - - 0 1", "4k3/8/8/3pP3/8/8/8/4K2R w K d6 0 1",
     "r3k2r/pppq1ppp/2n1bn2/2bpp3/2BPP3/2N1BN2/PPPQ1PPP/R3K2R w KQkq - 0 8",
+    // ---- constructed positions for rare branches ----
+    // en passant exposing the king along the rank / a diagonal; pinned capturer; ep in check
+    "8/8/8/K2pP2q/8/8/8/7k w - d6 0 1", "7k/8/8/8/q2Pp2K/8/8/8 b - d3 0 1",
+    "8/8/8/1K1pP1q1/8/8/8/7k w - d6 0 1", "4k3/8/8/8/1b1pP3/8/8/4K3 b - e3 0 1",
+    "8/8/8/2k5/3Pp3/8/8/4K2B b - d3 0 1", "8/8/8/8/2pPk3/8/8/4K2B b - d3 0 1",
+    "4k3/8/8/2pP4/8/8/8/B3K3 w - c6 0 1", "k7/1b6/8/3pP3/8/5K2/8/8 w - d6 0 1",
+    "8/8/3k4/3pP3/8/8/8/3RK3 w - d6 0 1", "8/8/8/3pP3/8/2k5/8/4K2Q w - d6 0 1",
+    "rnbqkbnr/ppp1p1pp/8/3pPp2/8/8/PPPP1PPP/RNBQKBNR w KQkq f6 0 3", "4k3/8/8/8/3pP3/8/3K4/8 b - e3 0 1",
+    "8/8/8/8/R2pP2k/8/8/4K3 b - e3 0 1", "8/2p5/8/KP5r/8/8/8/7k b - - 0 1",
+    "1b2k3/8/8/3pP3/8/6K1/8/8 w - d6 0 1", "8/8/6k1/8/3Pp3/8/8/1B2K3 b - d3 0 1", "6k1/6b1/8/4Pp2/3K4/8/8/8 w - f6 0 1", "8/8/8/3k4/4pP2/8/6B1/6K1 b - f3 0 1",
+    "4k3/8/8/2KPp2r/8/8/8/8 w - e6 0 1", "8/8/8/8/k2pP2R/8/8/4K3 b - e3 0 1", "4k3/8/8/K2Pp2r/8/8/8/8 w - e6 0 1",
+    // double check, discovered check, pinned pieces moving along the pin
+    "4k3/8/8/8/8/8/3n4/R3K2r w Q - 0 1", "4k3/4r3/8/8/8/8/4B3/4K3 w - - 0 1", "4k3/8/8/7b/8/5P2/4K3/8 w - - 0 1",
+    "4k3/8/4r3/8/8/8/4R3/4K3 w - - 0 1", "k7/8/8/8/8/2b5/1P6/K7 w - - 0 1", "3rk3/8/8/8/8/8/3N4/3K4 w - - 0 1",
+    "4k3/8/8/1b6/8/3N4/4K3/8 w - - 0 1", "r3k3/8/8/8/4n3/8/3N4/4K2R w K - 0 1", "4k3/8/8/8/1q6/8/3P4/4K3 w - - 0 1",
+    // castling through / into / out of attack; b-file attacked; rook under attack
+    "r3k2r/8/8/8/8/8/8/R3K2R w KQkq - 0 1", "r3k2r/8/8/8/8/5r2/8/R3K2R w KQkq - 0 1", "r3k2r/8/8/8/8/6r1/8/R3K2R w KQkq - 0 1",
+    "r3k2r/8/8/8/8/1r6/8/R3K2R w KQkq - 0 1", "r3k2r/8/8/8/8/2r5/8/R3K2R w KQkq - 0 1", "r3k2r/8/8/8/8/3r4/8/R3K2R w KQkq - 0 1",
+    "r3k2r/8/8/8/8/4r3/8/R3K2R w KQkq - 0 1", "r3k2r/8/8/8/8/8/6b1/R3K2R w KQkq - 0 1", "r3k2r/8/8/8/8/8/1b6/R3K2R w KQkq - 0 1",
+    "r3k2r/1B6/8/8/8/8/8/R3K2R b KQkq - 0 1", "r3k2r/6B1/8/8/8/8/8/R3K2R b KQkq - 0 1", "r3k2r/8/8/8/8/8/8/RN2K1NR w KQkq - 0 1",
+    "rn2k1nr/8/8/8/8/8/8/R3K2R b KQkq - 0 1", "r3k2r/8/8/8/8/8/7p/R3K2R w KQkq - 0 1", "r3k2r/8/8/8/8/8/p7/R3K2R w KQkq - 0 1",
+    // promotions with capture and check, under-promotion mates, rook captured at home
+    "r3k2r/1P4P1/8/8/8/8/1p4p1/R3K2R w KQkq - 0 1", "r3k2r/1P4P1/8/8/8/8/1p4p1/R3K2R b KQkq - 0 1",
+    "3rk3/2P5/8/8/8/8/8/4K3 w - - 0 1", "5rk1/4P1pp/8/8/8/8/8/4K3 w - - 0 1", "8/5P1k/5K2/8/8/8/8/8 w - - 0 1",
+    // a king next to an enemy corner rook that never moved (rights must go when it is captured)
+    "r3k3/1K6/8/8/8/8/8/8 w q - 0 1", "4k2r/6K1/8/8/8/8/8/8 w k - 0 1", "8/8/8/8/8/8/1k6/R3K3 b Q - 0 1", "8/8/8/8/8/8/6k1/4K2R b K - 0 1",
+    "r3k2r/1K4N1/8/8/8/8/8/8 w kq - 0 1", "8/8/8/8/8/8/1k4n1/R3K2R b KQ - 0 1", "r3k2r/8/1N4B1/8/8/8/8/4K3 w kq - 0 1",
+    // a pinned pawn on the seventh rank whose only move captures the pinner and promotes
+    "7b/6P1/5K2/8/8/8/8/k7 w - - 0 1", "K7/8/8/8/8/5k2/6p1/7B b - - 0 1", "q7/1P6/2K5/8/8/8/8/7k w - - 0 1", "7K/8/8/8/8/2k5/1p6/Q7 b - - 0 1",
+    "3r4/3P4/3K4/8/8/8/8/k7 w - - 0 1", "8/8/8/8/8/3k4/3p4/3R3K b - - 0 1",
+    // crowded but legal
+    "rnbqkbnr/pppppppp/8/8/8/8/PPPPPPPP/RNBQKBNR b KQkq - 0 1", "QQQQ1k2/8/8/8/8/8/8/K7 w - - 0 1",
     "6k1/5ppp/8/8/8/8/5PPP/3R2K1 w - - 0 1", "7k/5Q2/6K1/8/8/8/8/8 b - - 0 1", "7k/8/5KQ1/8/8/8/8/8 w - - 0 1",
 ];
 
@@ -115,12 +149,16 @@ pub fn roots() -> Vec<Board> { ROOTS.iter().filter_map(|f| Board::from_str(f).ok
 pub fn biased_move(b: &Board, rng: &mut Rng) -> Option<ChessMove> {
     let moves: Vec<ChessMove> = MoveGen::new_legal(b).collect();
     if moves.is_empty() { return None; }
-    let mode = rng.below(8);
+    let mode = rng.below(12);
     let pref: Vec<ChessMove> = match mode {
         0 => moves.iter().cloned().filter(|m| b.piece_on(m.get_dest()).is_some()).collect(),
         1 => moves.iter().cloned().filter(|m| b.piece_on(m.get_source()) == Some(Piece::Pawn)).collect(),
         2 => moves.iter().cloned().filter(|m| *b.make_move_new(*m).checkers() != EMPTY).collect(),
         3 => moves.iter().cloned().filter(|m| b.piece_on(m.get_source()) == Some(Piece::King) || m.get_promotion().is_some()).collect(),
+        6 => moves.iter().cloned().filter(|m| b.make_move_new(*m).checkers().popcnt() >= 2).collect(),
+        4 | 5 => { // double pushes that create en-passant state, and en-passant captures themselves
+            moves.iter().cloned().filter(|m| b.make_move_new(*m).en_passant().is_some()
+                || (b.piece_on(m.get_source()) == Some(Piece::Pawn) && m.get_source().get_file() != m.get_dest().get_file() && b.piece_on(m.get_dest()).is_none())).collect() }
         _ => vec![],
     };
     if !pref.is_empty() { Some(*rng.pick(&pref)) } else { Some(*rng.pick(&moves)) }
@@ -131,6 +169,38 @@ pub fn random_setup(rng: &mut Rng) -> Option<Board> {
     use std::convert::TryFrom;
     let mut bb = BoardBuilder::new();
     let mut used = [false; 64];
+    let stm = if rng.chance(1, 2) { Color::White } else { Color::Black };
+    let mut preset_king = false;
+    // often: an en-passant situation (pawn that just double-pushed, enemy pawn beside it)
+    if rng.chance(2, 5) {
+        let f = rng.below(8) as usize;
+        let (pr, orig, mid) = if stm == Color::White { (4usize, 6usize, 5usize) } else { (3usize, 1usize, 2usize) };
+        let side = if f == 0 { 1 } else if f == 7 { 6 } else if rng.chance(1, 2) { f - 1 } else { f + 1 };
+        used[pr * 8 + f] = true; used[orig * 8 + f] = true; used[mid * 8 + f] = true; used[pr * 8 + side] = true;
+        bb.piece(sq(pr * 8 + f), Piece::Pawn, !stm);
+        bb.piece(sq(pr * 8 + side), Piece::Pawn, stm);
+        if rng.chance(1, 3) && f > 0 && f < 7 { let other = if side == f - 1 { f + 1 } else { f - 1 }; used[pr * 8 + other] = true; bb.piece(sq(pr * 8 + other), Piece::Pawn, stm); }
+        bb.en_passant(Some(File::from_index(f)));
+        // sometimes: the capturer is pinned along the capture diagonal (king behind it, enemy
+        // bishop / queen beyond the target square) or along its rank / file
+        if rng.chance(1, 3) {
+            let (cf, cr) = (side as i32, pr as i32);
+            let (df, dr) = (f as i32 - side as i32, mid as i32 - pr as i32);
+            let (kf, kr) = (cf - df, cr - dr);
+            let mut bf = f as i32 + df; let mut brr = mid as i32 + dr;
+            let steps = rng.below(3) as i32;
+            for _ in 0..steps { if bf + df >= 0 && bf + df < 8 && brr + dr >= 0 && brr + dr < 8 { bf += df; brr += dr; } }
+            if kf >= 0 && kf < 8 && kr >= 0 && kr < 8 && bf >= 0 && bf < 8 && brr >= 0 && brr < 8 {
+                let ks = (kr * 8 + kf) as usize; let bs = (brr * 8 + bf) as usize;
+                if !used[ks] && !used[bs] {
+                    used[ks] = true; used[bs] = true;
+                    bb.piece(sq(ks), Piece::King, stm);
+                    bb.piece(sq(bs), if rng.chance(1, 2) { Piece::Bishop } else { Piece::Queen }, !stm);
+                    preset_king = true;
+                }
+            }
+        }
+    }
     let mut place = |bb: &mut BoardBuilder, p: Piece, c: Color, rng: &mut Rng| {
         for _ in 0..20 {
             let s = rng.below(64) as usize;
@@ -139,16 +209,24 @@ pub fn random_setup(rng: &mut Rng) -> Option<Board> {
             used[s] = true; bb.piece(sq(s), p, c); return;
         }
     };
-    place(&mut bb, Piece::King, Color::White, rng);
-    place(&mut bb, Piece::King, Color::Black, rng);
+    if !(preset_king && stm == Color::White) { place(&mut bb, Piece::King, Color::White, rng); }
+    if !(preset_king && stm == Color::Black) { place(&mut bb, Piece::King, Color::Black, rng); }
     let n = rng.below(9);
     for _ in 0..n {
         let p = match rng.below(8) { 0|1|2 => Piece::Pawn, 3 => Piece::Knight, 4 => Piece::Bishop, 5 => Piece::Rook, _ => Piece::Queen };
         let c = if rng.chance(1, 2) { Color::White } else { Color::Black };
         place(&mut bb, p, c, rng);
     }
-    bb.side_to_move(if rng.chance(1, 2) { Color::White } else { Color::Black });
-    Board::try_from(&bb).ok()
+    bb.side_to_move(stm);
+    match Board::try_from(&bb) {
+        Ok(b) => {
+            // an en-passant flag together with a check cannot be told apart here from an
+            // impossible set-up (the flag is only legitimate directly after a double push);
+            // such set-ups are outside "valid positions": drop the flag
+            if b.en_passant().is_some() && *b.checkers() != EMPTY { bb.en_passant(None); Board::try_from(&bb).ok() } else { Some(b) }
+        }
+        Err(_) => None,
+    }
 }
 
 /// The stream of test positions: playouts from the roots, with occasional null moves when
@@ -163,8 +241,10 @@ pub fn for_positions<F: FnMut(&Board, &str)>(n_games: u64, max_plies: usize, nul
             }
             continue;
         }
-        let mut b = rs[(g as usize / 1) % rs.len()];
-        if g as usize >= rs.len() { b = *rng.pick(&rs); }
+        // shards interleave over the root list, so that a run with few games per shard still
+        // starts from every root at least once
+        let gi = (g as usize) * nshards() + shard();
+        let mut b = if gi < rs.len() { rs[gi] } else { *rng.pick(&rs) };
         for _ in 0..max_plies {
             f(&b, "playout");
             if nulls && rng.chance(1, 12) { if let Some(nb) = b.null_move() { b = nb; continue; } }
